@@ -466,6 +466,18 @@ def check_c14(cfg, world, tr, acc):
         if t not in clock_open:
             V('C14', 'fill-not-at-open', 'fill of %s at %s is not at a market-open event' % (f['asset'], t))
     acc.count('C14:fills_checked', len(tr.fills))
+    # the broker is advanced through every event of the clock of (start, end), in order, and through nothing else
+    seen = []
+    for t in tr.clock:
+        t = py(t)
+        if not seen or seen[-1] != t:
+            seen.append(t)
+    want_clock = [t for t, _ in cal.clock(start, end, False, False)]
+    if seen != want_clock:
+        miss = [str(t) for t in want_clock if t not in set(seen)]
+        V('C14', 'session-clock', 'the broker was advanced through %d instants, the clock of %s .. %s has %d; not visited: %s'
+          % (len(seen), cfg['start'], cfg['end'], len(want_clock), miss[:3]))
+    acc.count('C14:clock_events_followed', len(seen))
     # equity curve: one point per business day with its close in [max(start, burn-in), end]
     ec = sess.get_equity_curve()
     want_dates = expected_equity_dates(cfg)
@@ -989,7 +1001,24 @@ def cfg_signature(cfg):
             cfg['start'][11:16])
 
 
-CHECKS = {'C08': check_c08, 'C14': check_c14, 'C09': check_c09_session, 'C16': check_c16_session,
+def check_c13_session(cfg, world, tr, acc):
+    """Every scheduled instant of the range is acted on by the running session (no burn-in)."""
+    if tr.error is not None:
+        V('C13', 'session-raised/%s' % tr.error[0], 'the session raised %s: %s at %s' % tr.error)
+    want = refmodel.rebalance_instants(dict(cfg, burn_in=None))
+    sched = refmodel.schedule(cfg)
+    if sched != want:
+        V('C13', 'instant-off-clock', 'scheduled instants %s are not events of the clock of the same range'
+          % [str(t) for t in sched if t not in want][:3])
+    got = [py(r['dt']) for r in tr.pcm]
+    if got != want:
+        V('C13', 'session-skips-rebalance', 'the session (start %s, %s) rebalanced at %d instants, its schedule has %d; skipped: %s'
+          % (cfg['start'], cfg['rebalance'], len(got), len(want), [str(t) for t in want if t not in got][:3]))
+    acc.count('C13:session_rebalances_observed', len(got))
+    acc.count('C13:sessions_run')
+
+
+CHECKS = {'C13': check_c13_session, 'C08': check_c08, 'C14': check_c14, 'C09': check_c09_session, 'C16': check_c16_session,
           'C19': check_c19_session}
 
 
